@@ -470,6 +470,18 @@ def shell_model(draw, force=None, max_ports=6, collide=False):  # pylint: disabl
                         if len(found) == 1 and found[0]['elem'] is want:
                             ref = (sp_d, list(sp))
                             break
+            if mirror and j in (0, 1) and 'one_way_itf' not in feats and not repeat:
+                # the first two ports take the two mirrored interfaces (same relative formal type
+                # names, different declarations behind them)
+                mirrored = [e for _sc, e in interfaces if e.get('mirror')]
+                if len(mirrored) == 2:
+                    want = mirrored[j]
+                    for sp_d in [d for d in flat_decls() if d['elem'] is want]:
+                        for sp in spellings(sp_d['fqn'], enc_scope):
+                            found = lookup(flat_decls(), sp, enc_scope)
+                            if len(found) == 1 and found[0]['elem'] is want:
+                                ref = (sp_d, list(sp))
+                                break
             if 'shared_itf' in feats and j == 1 and shared is not None:
                 ref = shared
             if j == 0:
